@@ -657,7 +657,7 @@ def render_ising(depth=3, dmm_first=False):
     return c
 
 
-def render_xy(depth=3):
+def render_xy(depth=3, masked=False):
     """C06/C05: two Microwave channels (XY mode) with an SLM mask and a magnetic field."""
     devs = [{"nq": 3, "slm": True, "reusable": True, "chs": [
         {"kind": "mw", "addr": "G", "clock": 1, "minDur": 1},
@@ -680,7 +680,11 @@ def render_xy(depth=3):
     calls.append({"op": "magfield", "zero": False, "b": 1})      # (1, 2, 0.5): not a unit vector, not perpendicular
     calls.append({"op": "align", "nms": [1, 2], "rest": True})
     calls.append({"op": "measure", "basis": "XY"})
-    c = Config("render_xy", devs, pulses, calls, [1, 2], depth)
+    init = [1, 2]
+    if masked:
+        # the SLM mask is configured first, so that three pulses fit after it within the depth bound
+        init += [k + 1 for k, c in enumerate(calls) if c["op"] == "slm" and c["tg"] == 5]
+    c = Config("render_xy", devs, pulses, calls, init, depth)
     c.render = True
     return c
 
@@ -940,7 +944,9 @@ def instances(name, tier):
         b.name = f"render_xy-d{b.max_depth}"
         a2 = render_ising(3, dmm_first=True)
         a2.name = "render_ising_dmmfirst-d3"
-        out = [a, a2, b]
+        b2 = render_xy(3, masked=True)
+        b2.name = "render_xy_masked-d3"
+        out = [a, a2, b, b2]
         for buf in (None, 240):
             c = eom(3, custom_buf=buf)
             c.name = f"render_eom-b{buf or 0}-d3"
@@ -1033,7 +1039,7 @@ def by_tag(tag):
         if tag.startswith("render_ising"):
             c = render_ising(d, dmm_first="dmmfirst" in tag)
         elif tag.startswith("render_xy"):
-            c = render_xy(d)
+            c = render_xy(d, masked="masked" in tag)
         else:
             c = eom(d, custom_buf=240 if "b240" in tag else None)
             c.render = True
